@@ -219,6 +219,15 @@ Qed.
 Lemma jlookup_In m k x : jlookup m k = Some x -> In (k, x) m.
 Proof. rewrite jlookup_get_last. apply get_last_In. Qed.
 
+Lemma jdepth_echo name x : (jdepth x <= 126)%nat -> (jdepth (JObj [(name, jcanon x)]) <= 127)%nat.
+Proof. intros H. cbn [jdepth fold_right snd]. pose proof (jdepth_jcanon_le x). lia. Qed.
+Lemma jdepth_member m key x : In (key, x) m -> (jdepth (JObj m) <= 127)%nat -> (jdepth x <= 126)%nat.
+Proof. intros Hin Hd. cbn [jdepth] in Hd. pose proof (depth_in_m m (key, x) Hin). cbn [snd] in *. lia. Qed.
+Lemma okn_of_pos okf z : 0 <= z <= U64_MAX -> okn_of okf (JPosInt z) = true.
+Proof. intros Hz. cbn [okn_of]. unfold U64_MAX in *. lia. Qed.
+Lemma okn_of_neg okf z : I64_MIN <= z < 0 -> okn_of okf (JNegInt z) = true.
+Proof. intros Hz. cbn [okn_of]. unfold I64_MIN in *. lia. Qed.
+
 (* ------------------------------------------------------------------ parse-print-parse, echo on text *)
 Section TextEchoProofs.
   Variable pfs : string -> option (list lamarg * string).
@@ -246,8 +255,8 @@ Section TextEchoProofs.
     json_from_str float_of_tok s = Some d -> json_all okn d = true /\ (jdepth d <= 127)%nat.
   Proof.
     apply (json_from_str_sound float_of_tok okn).
-    - intros z Hz. cbn [okn_of]. unfold U64_MAX in *. lia.
-    - intros z Hz. cbn [okn_of]. unfold I64_MIN in *. lia.
+    - apply okn_of_pos.
+    - apply okn_of_neg.
     - intros t x Hx. exact (H_fot_okf t x Hx).
   Qed.
 
@@ -281,7 +290,7 @@ Section TextEchoProofs.
     intros Hok Hd.
     apply (json_text_roundtrip_g fmt_pieces float_of_tok okf H_print_wf H_roundtrip H_okf_finite).
     - cbn [json_all forallb snd]. now rewrite (okn_jcanon x Hok).
-    - cbn [jdepth fold_right snd]. pose proof (jdepth_jcanon_le x). lia.
+    - now apply jdepth_echo.
   Qed.
 
   (* `blots -i '<text>' 'output <name> = inputs.<key>'` on an object document, text to text: the
@@ -303,7 +312,7 @@ Section TextEchoProofs.
     pose proof (jlookup_In m key x Hx) as Hin.
     apply echo_output_reads_back.
     - rewrite json_all_obj, forallb_forall in Hok. exact (Hok (key, x) Hin).
-    - cbn [jdepth] in Hd. pose proof (depth_in_m m (key, x) Hin). cbn [snd] in *. lia.
+    - exact (jdepth_member m key x Hin Hd).
   Qed.
 
   (* a document that is not an object is echoed through inputs.value_1; its echo is one level
